@@ -1,6 +1,6 @@
 (* Proofs/WmdGraph.v — the graph part of Model/WmdIO.v: association lists, add_node / add_edge invariants,
    the graph rebuilt from the sorted edge list (what parse makes of a written file). *)
-From Coq Require Import List NArith Bool Lia Permutation Sorted.
+From Coq Require Import List NArith ZArith Bool Lia Permutation Sorted.
 From PrefVerif Require Import Lib.Val Lib.Dec Lib.PyStr Model.Meta Model.WmdIO Proofs.WmdSort.
 Import ListNotations.
 
@@ -62,11 +62,11 @@ End Assoc.
 
 Lemma peqb_spec a b : peqb a b = true <-> a = b.
 Proof.
-  destruct a as [a1 a2], b as [b1 b2]. unfold peqb. simpl. rewrite andb_true_iff, !N.eqb_eq.
+  destruct a as [a1 a2], b as [b1 b2]. unfold peqb. simpl. rewrite andb_true_iff, !Z.eqb_eq.
   split; [intros [-> ->]; reflexivity|intros H; injection H; auto].
 Qed.
-Lemma Neqb_spec a b : N.eqb a b = true <-> a = b.
-Proof. apply N.eqb_eq. Qed.
+Lemma Zeqb_spec a b : Z.eqb a b = true <-> a = b.
+Proof. apply Z.eqb_eq. Qed.
 
 (* ================================================================================================ *)
 (* 2. node_mapping: add_node, set.add, add_edge                                                      *)
@@ -79,8 +79,8 @@ Qed.
 Lemma has_node_In n g : has_node n g = true <-> In n (keys g).
 Proof.
   unfold has_node, keys. rewrite existsb_exists, in_map_iff. split.
-  - intros [p [Hp E]]. apply N.eqb_eq in E. exists p. split; [now symmetry|exact Hp].
-  - intros [p [E Hp]]. exists p. split; [exact Hp|]. apply N.eqb_eq. now symmetry.
+  - intros [p [Hp E]]. apply Z.eqb_eq in E. exists p. split; [now symmetry|exact Hp].
+  - intros [p [E Hp]]. exists p. split; [exact Hp|]. apply Z.eqb_eq. now symmetry.
 Qed.
 
 Lemma keys_app {K V} (a b : list (K * V)) : keys (a ++ b) = keys a ++ keys b.
@@ -103,52 +103,52 @@ Qed.
 Lemma nbrs_add_node n g x : nbrs (add_node n g) x = nbrs g x.
 Proof.
   unfold add_node. destruct (has_node n g) eqn:E; [reflexivity|].
-  unfold nbrs. rewrite assoc_get_app. destruct (assoc_get N.eqb x g) eqn:A; [reflexivity|].
-  simpl. destruct (N.eqb x n); reflexivity.
+  unfold nbrs. rewrite assoc_get_app. destruct (assoc_get Z.eqb x g) eqn:A; [reflexivity|].
+  simpl. destruct (Z.eqb x n); reflexivity.
 Qed.
 
 Lemma set_add_In m s x : In x (set_add m s) <-> x = m \/ In x s.
 Proof.
-  unfold set_add. destruct (existsb (N.eqb m) s) eqn:E.
-  - apply existsb_exists in E as [y [Hy E]]. apply N.eqb_eq in E. subst y.
+  unfold set_add. destruct (existsb (Z.eqb m) s) eqn:E.
+  - apply existsb_exists in E as [y [Hy E]]. apply Z.eqb_eq in E. subst y.
     split; [tauto|]. intros [->|H]; assumption.
   - rewrite in_app_iff. simpl. split; intros H; [destruct H as [H|[H|[]]]; auto|destruct H; auto].
 Qed.
 
 Lemma set_add_NoDup m s : NoDup s -> NoDup (set_add m s).
 Proof.
-  intros D. unfold set_add. destruct (existsb (N.eqb m) s) eqn:E; [exact D|].
+  intros D. unfold set_add. destruct (existsb (Z.eqb m) s) eqn:E; [exact D|].
   apply NoDup_snoc; [|exact D]. intros H.
-  assert (existsb (N.eqb m) s = true) as C; [|congruence].
-  apply existsb_exists. exists m. split; [exact H|apply N.eqb_refl].
+  assert (existsb (Z.eqb m) s = true) as C; [|congruence].
+  apply existsb_exists. exists m. split; [exact H|apply Z.eqb_refl].
 Qed.
 
 Lemma keys_nb_add n m g : keys (nb_add n m g) = keys g.
 Proof.
   induction g as [|[k s] r IH]; simpl; [reflexivity|].
-  destruct (N.eqb n k); simpl; [reflexivity|now rewrite IH].
+  destruct (Z.eqb n k); simpl; [reflexivity|now rewrite IH].
 Qed.
 
 Lemma nbrs_nb_add_same n m g : In n (keys g) -> nbrs (nb_add n m g) n = set_add m (nbrs g n).
 Proof.
   induction g as [|[k s] r IH]; simpl; intros H; [contradiction|].
-  unfold nbrs. simpl. destruct (N.eqb n k) eqn:E; simpl.
+  unfold nbrs. simpl. destruct (Z.eqb n k) eqn:E; simpl.
   - now rewrite E.
-  - rewrite E. apply N.eqb_neq in E. destruct H as [H|H]; [congruence|]. now apply IH.
+  - rewrite E. apply Z.eqb_neq in E. destruct H as [H|H]; [congruence|]. now apply IH.
 Qed.
 
 Lemma nbrs_nb_add_other n m g x : x <> n -> nbrs (nb_add n m g) x = nbrs g x.
 Proof.
   intros Hx. induction g as [|[k s] r IH]; simpl; [reflexivity|].
-  unfold nbrs in *. destruct (N.eqb n k) eqn:E; simpl.
-  - apply N.eqb_eq in E. subst k. apply N.eqb_neq in Hx. now rewrite Hx.
-  - destruct (N.eqb x k); [reflexivity|exact IH].
+  unfold nbrs in *. destruct (Z.eqb n k) eqn:E; simpl.
+  - apply Z.eqb_eq in E. subst k. apply Z.eqb_neq in Hx. now rewrite Hx.
+  - destruct (Z.eqb x k); [reflexivity|exact IH].
 Qed.
 
 Lemma nbrs_In_key g n m : In m (nbrs g n) -> In n (keys g).
 Proof.
-  unfold nbrs. destruct (assoc_get N.eqb n g) eqn:E; [|contradiction]. intros _.
-  apply assoc_get_Some_In in E; [|exact Neqb_spec]. unfold keys. apply in_map_iff. now exists (n, l).
+  unfold nbrs. destruct (assoc_get Z.eqb n g) eqn:E; [|contradiction]. intros _.
+  apply assoc_get_Some_In in E; [|exact Zeqb_spec]. unfold keys. apply in_map_iff. now exists (n, l).
 Qed.
 
 Lemma aen_keys n1 n2 g x : In x (keys (add_edge_nodes n1 n2 g)) <-> x = n1 \/ x = n2 \/ In x (keys g).
@@ -158,9 +158,9 @@ Lemma aen_NoDup_keys n1 n2 g : NoDup (keys g) -> NoDup (keys (add_edge_nodes n1 
 Proof. intros D. unfold add_edge_nodes. rewrite keys_nb_add. now apply add_node_NoDup, add_node_NoDup. Qed.
 
 Lemma aen_nbrs n1 n2 g x :
-  nbrs (add_edge_nodes n1 n2 g) x = if N.eqb x n1 then set_add n2 (nbrs g n1) else nbrs g x.
+  nbrs (add_edge_nodes n1 n2 g) x = if Z.eqb x n1 then set_add n2 (nbrs g n1) else nbrs g x.
 Proof.
-  unfold add_edge_nodes. destruct (N.eqb_spec x n1) as [->|Hx].
+  unfold add_edge_nodes. destruct (Z.eqb_spec x n1) as [->|Hx].
   - rewrite nbrs_nb_add_same; [now rewrite !nbrs_add_node|]. rewrite !keys_add_node. auto.
   - rewrite nbrs_nb_add_other by exact Hx. now rewrite !nbrs_add_node.
 Qed.
@@ -168,14 +168,14 @@ Qed.
 Lemma aen_nbrs_In n1 n2 g x y :
   In y (nbrs (add_edge_nodes n1 n2 g) x) <-> (x = n1 /\ y = n2) \/ In y (nbrs g x).
 Proof.
-  rewrite aen_nbrs. destruct (N.eqb_spec x n1) as [->|Hx].
+  rewrite aen_nbrs. destruct (Z.eqb_spec x n1) as [->|Hx].
   - rewrite set_add_In. tauto.
   - tauto.
 Qed.
 
 Lemma aen_nbrs_NoDup n1 n2 g : (forall x, NoDup (nbrs g x)) -> forall x, NoDup (nbrs (add_edge_nodes n1 n2 g) x).
 Proof.
-  intros D x. rewrite aen_nbrs. destruct (N.eqb x n1); [apply set_add_NoDup|]; apply D.
+  intros D x. rewrite aen_nbrs. destruct (Z.eqb x n1); [apply set_add_NoDup|]; apply D.
 Qed.
 
 (* well-formed node_mapping: a dict (distinct keys) of sets (duplicate-free) whose elements are nodes *)
@@ -195,7 +195,7 @@ Proof.
 Qed.
 
 (* ---- the graph built by a sequence of add_edge calls ---- *)
-Definition build_nodes (ks : list (N * N)) (g : nmap) : nmap :=
+Definition build_nodes (ks : list (Z * Z)) (g : nmap) : nmap :=
   fold_left (fun g k => add_edge_nodes (fst k) (snd k) g) ks g.
 
 Lemma build_wf ks : forall g, wf_nmap g -> wf_nmap (build_nodes ks g).
@@ -242,9 +242,9 @@ Lemma all_edges_In g n m : NoDup (keys g) -> (In (n, m) (all_edges g) <-> In m (
 Proof.
   intros D. unfold all_edges. rewrite in_flat_map. split.
   - intros [[k s] [Hp H]]. simpl in H. apply in_map_iff in H as [y [E Hy]]. injection E as -> ->.
-    unfold nbrs. now rewrite (assoc_get_In _ _ N.eqb Neqb_spec n s g D Hp).
-  - intros H. unfold nbrs in H. destruct (assoc_get N.eqb n g) as [s|] eqn:E; [|contradiction].
-    apply assoc_get_Some_In in E; [|exact Neqb_spec]. exists (n, s). split; [exact E|].
+    unfold nbrs. now rewrite (assoc_get_In _ _ Z.eqb Zeqb_spec n s g D Hp).
+  - intros H. unfold nbrs in H. destruct (assoc_get Z.eqb n g) as [s|] eqn:E; [|contradiction].
+    apply assoc_get_Some_In in E; [|exact Zeqb_spec]. exists (n, s). split; [exact E|].
     simpl. apply in_map_iff. now exists m.
 Qed.
 
@@ -252,11 +252,11 @@ Lemma all_edges_NoDup g : NoDup (keys g) -> (forall n, NoDup (nbrs g n)) -> NoDu
 Proof.
   induction g as [|[k s] r IH]; intros D Dn; simpl; [constructor|].
   inversion D as [|? ? D1 D2]; subst.
-  assert (Hs : NoDup s). { specialize (Dn k). unfold nbrs in Dn. simpl in Dn. now rewrite N.eqb_refl in Dn. }
+  assert (Hs : NoDup s). { specialize (Dn k). unfold nbrs in Dn. simpl in Dn. now rewrite Z.eqb_refl in Dn. }
   assert (Hr : forall n, NoDup (nbrs r n)).
-  { intros n. specialize (Dn n). unfold nbrs in *. simpl in Dn. destruct (N.eqb n k) eqn:Hn; [|exact Dn].
-    apply N.eqb_eq in Hn. subst n. destruct (assoc_get N.eqb k r) eqn:E; [|constructor].
-    apply assoc_get_Some_In in E; [|exact Neqb_spec]. exfalso. apply D1. unfold keys. apply in_map_iff. now exists (k, l). }
+  { intros n. specialize (Dn n). unfold nbrs in *. simpl in Dn. destruct (Z.eqb n k) eqn:Hn; [|exact Dn].
+    apply Z.eqb_eq in Hn. subst n. destruct (assoc_get Z.eqb k r) eqn:E; [|constructor].
+    apply assoc_get_Some_In in E; [|exact Zeqb_spec]. exfalso. apply D1. unfold keys. apply in_map_iff. now exists (k, l). }
   assert (A : NoDup (map (pair k) s)).
   { apply FinFun.Injective_map_NoDup; [|exact Hs]. intros a b E. now injection E. }
   assert (B : NoDup (all_edges r)) by (apply IH; assumption).
@@ -285,7 +285,7 @@ Proof. intros H. now apply Permutation_length, all_edges_perm_edge_keys. Qed.
 (* ================================================================================================ *)
 (* 4. the graph rebuilt from the sorted edge list                                                    *)
 (* ================================================================================================ *)
-Definition incident (g : nmap) (x : N) : Prop := exists y, In y (nbrs g x) \/ In x (nbrs g y).
+Definition incident (g : nmap) (x : Z) : Prop := exists y, In y (nbrs g x) \/ In x (nbrs g y).
 
 Definition rebuilt (g : nmap) : nmap := build_nodes (edge_keys g) [].
 
@@ -333,13 +333,13 @@ Qed.
 (* ================================================================================================ *)
 Section Weights.
   Variable W : Type.
-  Notation wtab := (list ((N * N) * W)).
+  Notation wtab := (list ((Z * Z) * W)).
 
   (* the (edge, weight) pairs in the order in which they are written *)
-  Definition wlist (wt : wtab) (ks : list (N * N)) : wtab :=
+  Definition wlist (wt : wtab) (ks : list (Z * Z)) : wtab :=
     flat_map (fun k => match assoc_get peqb k wt with Some w => [(k, w)] | None => [] end) ks.
 
-  Definition all_weighted (wt : wtab) (ks : list (N * N)) : Prop :=
+  Definition all_weighted (wt : wtab) (ks : list (Z * Z)) : Prop :=
     forall k, In k ks -> assoc_get peqb k wt <> None.
 
   Lemma wlist_keys wt ks : all_weighted wt ks -> keys (wlist wt ks) = ks.
@@ -364,7 +364,7 @@ Section Weights.
     rewrite (assoc_get_app _ _ peqb). destruct (peqb k k') eqn:E.
     - apply peqb_spec in E. subst k'. destruct (assoc_get peqb k wt) eqn:G.
       + simpl. now rewrite (proj2 (peqb_spec k k) eq_refl).
-      + simpl. destruct (in_dec (fun a b : N * N => ltac:(decide equality; apply N.eq_dec)) k r) as [I|I].
+      + simpl. destruct (in_dec (fun a b : Z * Z => ltac:(decide equality; apply Z.eq_dec)) k r) as [I|I].
         * now apply IH.
         * now apply wlist_get_notin.
     - assert (k <> k') as Hne by (intros ->; rewrite (proj2 (peqb_spec k' k') eq_refl) in E; discriminate).
